@@ -24,9 +24,35 @@ pub enum Op {
     Scrape1(u8),
     Scrape2,
     Clean,
+    /// scrape of two torrents in the given order (the torrents may live in different shards)
+    ScrapeV(u8, u8),
+}
+
+/// a torrent in shard 1 (torrents 0 and 1 are in shard 0)
+pub const X1: u8 = 0x81;
+
+fn torrents_of(p: &Program) -> Vec<u8> {
+    let mut v = vec![0u8, 1];
+    for t in &p.threads {
+        for o in t {
+            match o {
+                Op::Ann(h, _, _) | Op::Scrape1(h) => v.push(*h),
+                Op::ScrapeV(a, b) => {
+                    v.push(*a);
+                    v.push(*b);
+                }
+                _ => {}
+            }
+        }
+    }
+    v.sort();
+    v.dedup();
+    v
 }
 
 pub const OWN: u8 = 100;
+/// key of the final-state map under which a quiescent scrape / announce disagreement is recorded
+const INCONSISTENT: u8 = 0x7f;
 
 #[derive(Clone, Copy, Debug, Serialize, Deserialize, PartialEq, Eq, Hash, PartialOrd, Ord)]
 pub enum Init {
@@ -114,11 +140,12 @@ pub fn execute(p: &Program, prefix: &[usize], all_points: bool) -> (ExecResult, 
     let world = build_world(p.init);
     let dump = world.maps.verif_dump();
     let shard_locks: HashSet<usize> = dump.ipv4_shard_lock_addrs.iter().chain(dump.ipv6_shard_lock_addrs.iter()).cloned().collect();
-    let shard0 = dump.ipv4_shard_lock_addrs[0];
+    let torrents = torrents_of(p);
+    let named_shards: HashSet<usize> = torrents.iter().map(|h| dump.ipv4_shard_lock_addrs[crate::udp_sys::hash_bytes(*h)[0] as usize % dump.ipv4_shard_lock_addrs.len()]).collect();
     let cleaners = p.threads.iter().filter(|t| t.contains(&Op::Clean)).count();
     let sl = shard_locks.clone();
-    // footprint: a shard lock other than shard 0 (v4) is touched only by cleaning passes
-    let shared_pred: Box<dyn Fn(usize) -> bool + Send> = Box::new(move |addr| all_points || !sl.contains(&addr) || addr == shard0 || cleaners >= 2);
+    // footprint: a shard lock other than those of the torrents the program names (v4) is touched only by cleaning passes
+    let shared_pred: Box<dyn Fn(usize) -> bool + Send> = Box::new(move |addr| all_points || !sl.contains(&addr) || named_shards.contains(&addr) || cleaners >= 2);
     let history: Arc<Mutex<Vec<Rec>>> = Arc::new(Mutex::new(Vec::new()));
     let maps: TorrentMaps = world.maps.clone();
     let mut bodies: Vec<Box<dyn FnOnce(usize, Arc<Shared>) + Send + 'static>> = Vec::new();
@@ -141,6 +168,7 @@ pub fn execute(p: &Program, prefix: &[usize], all_points: bool) -> (ExecResult, 
                     }
                     Op::Scrape1(h) => Obs::Scrape(w.real_scrape(true, &[*h])),
                     Op::Scrape2 => Obs::Scrape(w.real_scrape(true, &[0, 1])),
+                    Op::ScrapeV(a, b) => Obs::Scrape(w.real_scrape(true, &[*a, *b])),
                     Op::Clean => {
                         w.maps.clean_and_update_statistics(&w.config, &w.stats, &w.tx, &w.access, SecondsSinceServerStart::new_raw(CLEAN_NOW), false);
                         Obs::Clean
@@ -158,7 +186,7 @@ pub fn execute(p: &Program, prefix: &[usize], all_points: bool) -> (ExecResult, 
     let mut fin = BTreeMap::new();
     if x.deadlock.is_none() {
         let mut w = world;
-        for h in [0u8, 1] {
+        for h in torrents.iter().cloned() {
             let r = std::panic::catch_unwind(std::panic::AssertUnwindSafe(|| {
                 let sc = w.real_scrape(true, &[h]);
                 let vu = ValidUntil::new_raw(SecondsSinceServerStart::new_raw(LIVE_DEADLINE));
@@ -169,13 +197,13 @@ pub fn execute(p: &Program, prefix: &[usize], all_points: bool) -> (ExecResult, 
                 Ok((sc, s, l, peers)) => {
                     let set: BTreeSet<(IpAddr, u16)> = peers.into_iter().collect();
                     if sc != vec![(s, l)] {
-                        fin.insert(100 + h, (sc[0].0, sc[0].1, BTreeSet::new()));
+                        fin.insert(INCONSISTENT, (sc[0].0, sc[0].1, BTreeSet::new()));
                     }
                     fin.insert(h, (s, l, set));
                 }
                 Err(_) => {
                     // the storage code panicked on a quiescent read: reported as an inconsistent final state
-                    fin.insert(100 + h, (-1, -1, BTreeSet::new()));
+                    fin.insert(INCONSISTENT, (-1, -1, BTreeSet::new()));
                 }
             }
         }
@@ -278,11 +306,11 @@ pub fn check_execution(p: &Program, x: &ExecResult, hist: &[Rec], fin: &BTreeMap
             v.push(("coop/panic".to_string(), format!("operation {:?} of thread {} panicked / gave a malformed reply: {}", r.op, r.tid, m)));
         }
     }
-    if fin.contains_key(&100) || fin.contains_key(&101) {
+    if fin.contains_key(&INCONSISTENT) {
         v.push(("coop/final-state-inconsistent".to_string(), "quiescent scrape and announce counts disagree".into()));
     }
     let init = init_state(p.init);
-    for h in [0u8, 1] {
+    for h in torrents_of(p) {
         let mut steps: Vec<Step> = Vec::new();
         for (ri, r) in hist.iter().enumerate() {
             match (&r.op, &r.obs) {
@@ -291,6 +319,13 @@ pub fn check_execution(p: &Program, x: &ExecResult, hist: &[Rec], fin: &BTreeMap
                 }
                 (Op::Scrape1(hh), Obs::Scrape(c)) if *hh == h => steps.push(Step { rec: ri, kind: StepKind::Read { s: c[0].0, l: c[0].1 }, call: r.call, ret: r.ret }),
                 (Op::Scrape2, Obs::Scrape(c)) => steps.push(Step { rec: ri, kind: StepKind::Read { s: c[h as usize].0, l: c[h as usize].1 }, call: r.call, ret: r.ret }),
+                (Op::ScrapeV(a, b), Obs::Scrape(c)) => {
+                    for (pos, hh) in [a, b].iter().enumerate() {
+                        if **hh == h {
+                            steps.push(Step { rec: ri, kind: StepKind::Read { s: c[pos].0, l: c[pos].1 }, call: r.call, ret: r.ret });
+                        }
+                    }
+                }
                 (Op::Clean, Obs::Clean) => steps.push(Step { rec: ri, kind: StepKind::Expire, call: r.call, ret: r.ret }),
                 _ => {}
             }
@@ -435,6 +470,32 @@ pub fn programs(tier: Tier) -> Vec<(Program, Option<usize>)> {
         }
     }
     out
+}
+
+/// programs whose operations span two shards: scrapes naming a shard-0 and a shard-1 torrent in either order next to announces that
+/// insert never-seen torrents into those shards (shard lock upgraded to a writer) and cleaning passes. Four threads are what a cycle
+/// "reader of shard A waits behind a writer that waits for a reader of shard B that waits behind a writer that waits for the first
+/// reader" needs. Explored with every lock operation of the named shards a choice point, under the preemption bound.
+pub fn cross_shard_programs(tier: Tier) -> Vec<(Program, usize)> {
+    let b = if tier.thorough() { 3 } else { 2 };
+    let s01 = vec![Op::ScrapeV(0, X1)];
+    let s10 = vec![Op::ScrapeV(X1, 0)];
+    let a0 = vec![Op::Ann(0, OWN, Kind::Leech)];
+    let a1 = vec![Op::Ann(1, OWN, Kind::Leech)];
+    let ax = vec![Op::Ann(X1, OWN, Kind::Seed)];
+    let cl = vec![Op::Clean];
+    let mut v = Vec::new();
+    for init in [Init::Empty, Init::OneLive, Init::OneExpiring] {
+        v.push((Program { init, threads: vec![s01.clone(), s10.clone(), a0.clone(), ax.clone()] }, b));
+        v.push((Program { init, threads: vec![s01.clone(), s10.clone(), a1.clone(), ax.clone()] }, b));
+        v.push((Program { init, threads: vec![s01.clone(), s10.clone(), cl.clone(), ax.clone()] }, b));
+        v.push((Program { init, threads: vec![s01.clone(), s10.clone(), ax.clone()] }, b));
+        v.push((Program { init, threads: vec![s01.clone(), a0.clone(), ax.clone()] }, b));
+        v.push((Program { init, threads: vec![s10.clone(), cl.clone(), ax.clone()] }, b));
+        v.push((Program { init, threads: vec![s10.clone(), s01.clone(), cl.clone()] }, b));
+        v.push((Program { init, threads: vec![vec![Op::ScrapeV(0, X1), Op::ScrapeV(X1, 1)], vec![Op::Ann(X1, OWN, Kind::Leech), Op::Ann(1, OWN, Kind::Seed)]] }, b));
+    }
+    v
 }
 
 /// programs with two concurrent cleaning passes: every lock operation of all 32 shards is a choice point
@@ -630,6 +691,39 @@ pub fn main(args: &Args) -> ! {
         }
         eprintln!("[C04] bounded mode: bound={} schedules so far={} capped={} t={:.1}s", b, bounded_schedules, capped, run.elapsed());
     }
+    // cross-shard family
+    let xs = cross_shard_programs(args.tier);
+    let xres: Vec<ProgramResult> = par_map(&xs, threads, |(p, b)| explore_program(p, Some(*b), false, cap));
+    let mut cross_shard_schedules = 0u64;
+    let mut cross_shard_multi = 0u64;
+    for r in &xres {
+        cross_shard_schedules += r.schedules;
+        points += r.points;
+        outcomes += r.outcomes as u64;
+        if r.outcomes > 1 {
+            cross_shard_multi += 1;
+        }
+        if r.cap_hit {
+            caps += 1;
+        }
+        max_cp = max_cp.max(r.max_choice_points);
+        for (sched, sig, what) in &r.violations {
+            let (_, h1, f1) = execute(&r.program, sched, false);
+            let (_, h2, f2) = execute(&r.program, sched, false);
+            if outcome_fp(&h1, &f1) != outcome_fp(&h2, &f2) {
+                machinery_failure("violating schedule does not replay deterministically");
+            }
+            run.violation(sig.clone(), format!("{} [program {:?}, schedule of {} choices]", what, r.program, sched.len()), json!({"engine": "coop", "program": r.program, "schedule": sched, "all_points": false, "signature": sig}));
+        }
+    }
+    if cross_shard_multi == 0 {
+        machinery_failure("vacuous: no cross-shard program showed more than one outcome");
+    }
+    run.set("cross_shard_programs", xs.len() as u64);
+    run.set("cross_shard_schedules", cross_shard_schedules);
+    run.set("cross_shard_preemption_bound", if args.tier.thorough() { 3 } else { 2 });
+    eprintln!("[C04] cross-shard family: programs={} schedules={} multi-outcome={} t={:.1}s", xs.len(), cross_shard_schedules, cross_shard_multi, run.elapsed());
+
     // cross-check of the footprint reduction on a few full-mode programs: same outcome sets with every lock operation a choice point
     let cross: Vec<Program> = progs.iter().map(|(p, _)| p).filter(|p| p.threads.len() == 2 && p.threads.iter().all(|t| t.len() == 1) && p.threads.iter().any(|t| t[0] == Op::Clean)).take(if args.tier.thorough() { 24 } else { 6 }).cloned().collect();
     let cross_res: Vec<(usize, usize, bool)> = par_map(&cross, threads, |p| {
@@ -692,18 +786,18 @@ pub fn main(args: &Args) -> ! {
         run.set("stress", "8 threads x 20000 operations free-running (sampling, labelled; sound oracle: own live entry is handed out after an answered announce)");
     }
 
-    run.set("programs", progs.len() as u64 + tc.len() as u64);
+    run.set("programs", progs.len() as u64 + tc.len() as u64 + xs.len() as u64);
     run.set("programs_explored_full_mode", done);
     run.set("programs_every_interleaving", unbounded_programs);
     run.set("programs_preemption_bounded", bounded_programs);
     run.set("preemption_bounds", if args.tier.thorough() { "3-thread programs: 3; 2x2-operation programs: 2 (with a cleaning pass and a single-operation second thread: unbounded)" } else { "3-thread programs: 2; 2-operation programs: 1" });
     run.set("programs_skipped_time_budget", skipped);
-    run.set("states", schedules + bounded_schedules);
+    run.set("states", schedules + bounded_schedules + cross_shard_schedules);
     run.set("schedules_full_mode", schedules);
     run.set("schedules_bounded_mode", bounded_schedules);
     run.set("preemption_bound_completed_bounded_mode", bound_completed);
     run.set("transitions", points);
-    run.set("traces_validated_against_impl", schedules + bounded_schedules);
+    run.set("traces_validated_against_impl", schedules + bounded_schedules + cross_shard_schedules);
     run.set("distinct_outcomes_total", outcomes);
     run.set("programs_with_more_than_one_outcome", multi_outcome_programs);
     run.set("max_preemptions_needed_for_a_new_outcome", max_pre);
